@@ -131,6 +131,10 @@ def search(ctx, boost=1, focus=()):
             continue
         amps = np.sort(rng.uniform(1, 2, len(pts)))[::-1] * np.cumprod(np.full(len(pts), 1 / 1.15))
         amps = rng.permutation(amps) * float(rng.uniform(1, 100))
+        if (k // 4) % 3 == 1 and len(pts) >= 2:
+            # a large brightness range (a strong central beam among weak reflections): distinct brightnesses over 3 to 4 decades
+            amps = rng.permutation(np.sort(10 ** rng.uniform(0, 3.7, len(pts)))[::-1] * np.cumprod(np.full(len(pts), 1 / 1.3)))
+            ctx.count("large_brightness_range")
         ks = sorted({1, len(pts), int(rng.integers(1, len(pts) + 1))})
         q = {"seed": int(rng.integers(1 << 30)), "pattern": pat, "shape": shape, "centres": pts.tolist(),
              "amps": amps.tolist(), "bg": float(rng.uniform(0, 5)), "ks": ks}
